@@ -1180,7 +1180,7 @@ Section SetOps.
       all: rewrite parse_select_ok; [|exact Hr|exact Hf1|apply ops_follow; exact Hstop|lia|rewrite !app_length; cbn [length] in *; lia].
       all: cbn [rewrap bind].
       all: rewrite IH; [|exact Htl|exact Hf2|exact Hstop|lia|rewrite ?app_length; lia|rewrite ?app_length; lia].
-      all: unfold setop_str; reflexivity.
+      all: unfold setop_str; destruct op; reflexivity.
   Qed.
 
   (* parseSelectWithSetOperations on everything after the first SELECT keyword of a query *)
